@@ -675,8 +675,18 @@ func c10OSEnvWins(c *Check, a *Anchors) {
 		return varOf(h.Info(), r.Results[0]) != nil && varOf(h.Info(), r.Results[0]) == varOf(h.Info(), as.Lhs[1])
 	}
 	usesGetenv := false
+	// scope of the evaluation: GetFromVars itself, or a predicate of the package it calls (isExported(k, v, osEnvWins)),
+	// whose parameters are bound to the values of the arguments
+	type scope struct {
+		info *types.Info
+		body *ast.BlockStmt
+		vals map[*types.Var]int
+	}
+	cur := &scope{info: info, body: fb.Body, vals: map[*types.Var]int{}}
+	var evalFn func(h *FuncBody, args []int, w world, depth int) int
 	var evalE func(e ast.Expr, w world, okVars map[*types.Var]bool, depth int) int
 	evalE = func(e ast.Expr, w world, okVars map[*types.Var]bool, depth int) int {
+		info, fbBody := cur.info, cur.body
 		e = ast.Unparen(e)
 		switch x := e.(type) {
 		case *ast.UnaryExpr:
@@ -710,7 +720,10 @@ func c10OSEnvWins(c *Check, a *Anchors) {
 			if okVars[v] {
 				return b2i(w.set)
 			}
-			if d := singleDef(info, fb.Body, v); d != nil && depth > 0 {
+			if val, ok := cur.vals[v]; ok {
+				return val
+			}
+			if d := singleDef(info, fbBody, v); d != nil && depth > 0 {
 				return evalE(d, w, okVars, depth-1)
 			}
 		case *ast.CallExpr:
@@ -720,8 +733,91 @@ func c10OSEnvWins(c *Check, a *Anchors) {
 			if isPresence(info, x) {
 				return b2i(w.set)
 			}
+			// a predicate of the package whose body involves the experiment or the process environment: evaluated in place
+			if fn, ok := callee(info, x).(*types.Func); ok && depth > 0 {
+				if h := c.P.DeclOf(fn); h != nil && h.Decl != nil && h.Pkg == fb.Pkg && h != fb && involvesEnvDecision(h) {
+					var args []int
+					for _, a := range x.Args {
+						args = append(args, evalE(a, w, okVars, depth-1))
+					}
+					c.Fn(h)
+					return evalFn(h, args, w, depth-1)
+				}
+			}
 		}
 		return -1
+	}
+	evalFn = func(h *FuncBody, args []int, w world, depth int) int {
+		saved := cur
+		defer func() { cur = saved }()
+		cur = &scope{info: h.Info(), body: h.Body, vals: map[*types.Var]int{}}
+		for i, a := range args {
+			if pv := paramAt(h.Info(), h, i); pv != nil && a >= 0 {
+				cur.vals[pv] = a
+			}
+		}
+		okVars := map[*types.Var]bool{}
+		var run func(list []ast.Stmt) (int, bool)
+		run = func(list []ast.Stmt) (int, bool) {
+			for _, st := range list {
+				switch x := st.(type) {
+				case *ast.ReturnStmt:
+					if len(x.Results) != 1 {
+						return -1, true
+					}
+					return evalE(x.Results[0], w, okVars, depth), true
+				case *ast.AssignStmt:
+					if len(x.Lhs) == 2 && len(x.Rhs) == 1 {
+						if call, ok := ast.Unparen(x.Rhs[0]).(*ast.CallExpr); ok && isFunc(callee(cur.info, call), "os", "", "LookupEnv") {
+							if v := varOf(cur.info, x.Lhs[1]); v != nil {
+								okVars[v] = true
+							}
+							continue
+						}
+					}
+					return -1, true
+				case *ast.IfStmt:
+					if x.Init != nil {
+						if v, done := run([]ast.Stmt{x.Init}); done {
+							return v, true
+						}
+					}
+					switch evalE(x.Cond, w, okVars, depth) {
+					case 1:
+						if v, done := run(x.Body.List); done {
+							return v, true
+						}
+					case 0:
+						switch e := x.Else.(type) {
+						case *ast.BlockStmt:
+							if v, done := run(e.List); done {
+								return v, true
+							}
+						case *ast.IfStmt:
+							if v, done := run([]ast.Stmt{e}); done {
+								return v, true
+							}
+						}
+					default:
+						// a test about something else (the value's type): the variable is otherwise eligible when the branch only
+						// rejects it
+						rejects := len(x.Body.List) == 1 && x.Else == nil
+						if rejects {
+							r, ok := x.Body.List[0].(*ast.ReturnStmt)
+							rejects = ok && len(r.Results) == 1 && constText(cur.info, r.Results[0]) == "false"
+						}
+						if !rejects {
+							return -1, true
+						}
+					}
+				default:
+					return -1, true
+				}
+			}
+			return -1, false
+		}
+		v, _ := run(h.Body.List)
+		return v
 	}
 	bindOK := func(st ast.Stmt, okVars map[*types.Var]bool) {
 		if as, ok := st.(*ast.AssignStmt); ok && len(as.Lhs) == 2 && len(as.Rhs) == 1 {
@@ -1076,4 +1172,18 @@ func c10EveryDeclaredVarStored(c *Check, a *Anchors) {
 func exprStr1(p *Prog, n ast.Node) string {
 	pos := p.Fset.Position(n.Pos())
 	return fmt.Sprintf("statement at line %d", pos.Line)
+}
+
+// involvesEnvDecision: the function's body mentions the ENV_PRECEDENCE experiment or looks a name up in the process environment.
+func involvesEnvDecision(h *FuncBody) bool {
+	found := false
+	inspectDeep(h.Body, func(n ast.Node) bool {
+		if call, ok := n.(*ast.CallExpr); ok {
+			if isFunc(callee(h.Info(), call), "os", "", "LookupEnv") || isFunc(callee(h.Info(), call), "os", "", "Getenv") || strings.Contains(exprStr(call.Fun), "EnvPrecedence") {
+				found = true
+			}
+		}
+		return true
+	})
+	return found
 }
